@@ -19,6 +19,7 @@ type GenOpts struct {
 	OutGroup   bool // Out structs with group fields (open finding D9)
 	Lifetimes  []godi.Lifetime
 	OnlyK      bool // only the K core types
+	Removes    bool // append Remove / RemoveKeyed (+ re-Add) steps at the tail
 }
 
 var allLifetimes = []godi.Lifetime{godi.Singleton, godi.Scoped, godi.Transient}
@@ -288,10 +289,100 @@ func genOnce(rng *rand.Rand, o GenOpts) *Spec {
 	}
 	// shuffle registration order, preserving relative order inside each group
 	shuffleKeepingGroups(rng, s)
+	if o.Removes && rng.Intn(100) < 70 {
+		appendRemoves(rng, s, used, lifes)
+	}
 	return s
 }
 
+// appendRemoves appends 1-2 Remove/RemoveKeyed steps (biased towards identities of
+// registrations that provide several identities, and towards their first output) and, most
+// of the time, a re-registration of the removed identity by another constructor — the
+// documented "Remove, then add the mock" pattern.
+func appendRemoves(rng *rand.Rand, s *Spec, used map[int]bool, lifes []godi.Lifetime) {
+	m := NewModel(s)
+	type cand struct {
+		ik IdentKey
+		w  int
+	}
+	var cands []cand
+	for ik, p := range m.Services {
+		w := 1
+		if n := len(m.Regs[p.Reg].Idents); n > 1 {
+			w = 6
+			if m.Regs[p.Reg].Idents[0] == ik {
+				w = 12
+			}
+		}
+		cands = append(cands, cand{ik, w})
+	}
+	if len(cands) == 0 {
+		return
+	}
+	// deterministic order
+	for i := 1; i < len(cands); i++ {
+		for j := i; j > 0 && (cands[j].ik.Type+"\x00"+cands[j].ik.Key) < (cands[j-1].ik.Type+"\x00"+cands[j-1].ik.Key); j-- {
+			cands[j], cands[j-1] = cands[j-1], cands[j]
+		}
+	}
+	n := 1 + rng.Intn(2)
+	for k := 0; k < n && len(cands) > 0; k++ {
+		total := 0
+		for _, c := range cands {
+			total += c.w
+		}
+		x := rng.Intn(total)
+		pick := 0
+		for i, c := range cands {
+			if x < c.w {
+				pick = i
+				break
+			}
+			x -= c.w
+		}
+		ik := cands[pick].ik
+		cands = append(cands[:pick], cands[pick+1:]...)
+		s.Regs = append(s.Regs, Reg{Remove: true, RmType: ik.Type, RmKey: ik.Key, Tail: true})
+		if rng.Intn(100) < 65 {
+			// re-register the identity with a dependency-free constructor
+			concrete := ik.Type
+			var as []string
+			if ti := pool.Types[ik.Type]; ti.Iface {
+				if len(ti.Impl) == 0 {
+					continue
+				}
+				concrete = ti.Impl[rng.Intn(len(ti.Impl))]
+				as = []string{ik.Type}
+			}
+			if typeIndex[concrete] == 0 && concrete != pool.TypeNames[0] {
+				continue // decoys have no spare constructors
+			}
+			for _, suffix := range []string{"_a", "_b", "_c"} {
+				meta := pool.ByName("Leaf_" + concrete + suffix)
+				if used[meta.ID] {
+					continue
+				}
+				used[meta.ID] = true
+				s.Regs = append(s.Regs, Reg{Ctor: meta.ID, Life: lifes[rng.Intn(len(lifes))], Name: ik.Key, As: as, Tail: true})
+				break
+			}
+		}
+	}
+}
+
 func shuffleKeepingGroups(rng *rand.Rand, s *Spec) {
+	// tail steps (Remove / re-Add) keep their place
+	nTail := 0
+	for nTail < len(s.Regs) && s.Regs[len(s.Regs)-1-nTail].Tail {
+		nTail++
+	}
+	if nTail > 0 {
+		tail := append([]Reg{}, s.Regs[len(s.Regs)-nTail:]...)
+		prefix := &Spec{Regs: s.Regs[:len(s.Regs)-nTail]}
+		shuffleKeepingGroups(rng, prefix)
+		s.Regs = append(prefix.Regs, tail...)
+		return
+	}
 	n := len(s.Regs)
 	perm := rng.Perm(n)
 	out := make([]Reg, n)
